@@ -258,7 +258,7 @@ def c07(run):
         "task-to-task channels are unbounded futures mpsc channels with one receiving task each; a task that waits on a "
         "channel somebody can still send on is outside the done-when-settled guarantee (it does not wait on the shell)"]
     q = run.quick
-    mc_and_replay(run, "scripts", 7 if q else 9, ALL_INV, ["direct"], cap=4000 if q else 40000)
+    mc_and_replay(run, "scripts", 7 if q else 8, ALL_INV, ["direct"], cap=4000 if q else 40000)
     # every script of <= 2 (quick) / <= 3 (thorough) compound instructions over a 12-letter alphabet
     mc_and_replay(run, "scripts2" if q else "scripts3", 6 if q else 7, ALL_INV, ["direct"], cap=4000 if q else 60000)
     random_round(run, "script", run.seed, 1000 if q else 10000, ["direct", "stream"], "script", 2, 18,
